@@ -41,16 +41,17 @@ class Wiener:
         # Find the index of t.
         # Rounded to the closest step, but only multiple of dt are expected.
         idx = round((t - self.t0) / self.dt)
-        if idx >= self.noise.shape[0]:
-            self._extend(idx + 1)
+        if idx > self.noise.shape[0]:
+            self._extend(idx)
 
         if self.idx_last_0 > idx:
             # Before last call, reseting
             self.idx_last_0 = 0
             self.last_W = np.zeros(self.shape[-1], dtype=float)
 
+        # W(t0 + idx * dt) is the sum of the first ``idx`` increments.
         self.last_W = self.last_W + np.sum(
-            self.noise[self.idx_last_0:idx+1, 0, :], axis=0
+            self.noise[self.idx_last_0:idx, 0, :], axis=0
         )
 
         self.idx_last_0 = idx
